@@ -206,6 +206,10 @@ EXPORT int _vsnwprintf_s_chk(wchar_t *restrict dest, rsize_t dmax,
             ret = vswprintf(tmp, 512, fmt, ap2);
         } else {
             wchar_t *tmp = (wchar_t *)malloc(dmax * sizeof(wchar_t));
+            if (unlikely(!tmp)) {
+                handle_werror(dest, dmax, "vsnwprintf_s: malloc failed", ESNOSPC);
+                return -(ESNOSPC);
+            }
             ret = vswprintf(tmp, dmax, fmt, ap2);
             free(tmp);
         }
